@@ -23,10 +23,14 @@ def codes_of(s):
 
 
 class Carriers:
-    def __init__(self):
+    """opts: meta-model options (use_regexp_group, ignore_case, autokwd, skipws, memoization) every
+    carrier meta-model is built with; {} = the defaults."""
+
+    def __init__(self, opts=None):
         from textx import metamodel_from_str
         from textx.exceptions import TextXSyntaxError
-        self._mk = metamodel_from_str
+        self.opts = dict(opts or {})
+        self._mk = lambda g: metamodel_from_str(g, **self.opts)
         self.SyntaxError = TextXSyntaxError
         self._cache = {}
 
